@@ -258,7 +258,8 @@ def run(ctx):
             greeted = rng.random() < 0.7
             outgoing = rng.random() < 0.3
             special = (k % 7 == 3)
-            if special or k % 7 == 5:
+            oversize = (k % 7 == 6)
+            if special or oversize or k % 7 == 5:
                 greeted = True
             c = rn.add_peer(active=greeted, outgoing=outgoing)
             ops.append("node peer %d %d" % (1 if greeted else 0, 1 if outgoing else 0))
@@ -304,6 +305,22 @@ def run(ctx):
                 stray = MAGIC if (k // 7) % 2 == 0 else MAGIC + struct.pack(b">I", len(vf))
                 kind, data, reads = "stray_frame_header_in_a_read_of_its_own", stray + vf, [stray, vf]
                 frames = [("stray_header", stray), ("data_valid_block_after_stray_header", vf)]
+            size_saved = None
+            if oversize:
+                # a structurally invalid block: one byte above the configured size bound (the bound is set to the size of an
+                # otherwise perfectly valid new block minus one while it is delivered) — refused, nothing changes
+                from .c19 import patch_everywhere
+                head_ = rn.cm.coinstate.current_chain_hash
+                hb_ = rn.cm.coinstate.block_by_hash[head_]
+                vb = chain.mine(rn.cm.coinstate, head_, [], keys.pk(1), hb_.timestamp + 9)
+                node.CLOCK[0] = max(node.CLOCK[0], vb.timestamp + 5)
+                vf = fr(DataMessage(DATA_BLOCK, vb), rng)
+                kind, data, reads = "block_one_byte_over_the_size_bound", vf, [vf]
+                frames = [("data_block_over_the_size_bound", vf)]
+                size_limit = len(vb.serialize()) - 1
+                size_saved = patch_everywhere("MAX_BLOCK_SIZE", size_limit)
+                ops.append("p maxBlockSize %d" % size_limit)
+                impl.append("ok")
             ops.extend(keys.oracle_lines(sig_mark))
             impl.extend(["ok"] * (len(keys.oracle) - sig_mark))
             sig_mark = len(keys.oracle)
@@ -321,6 +338,11 @@ def run(ctx):
                 escaped = e
             ops.append("node bytes %d %s %d" % (c, hx(data), node.CLOCK[0]))
             impl.append("ok")
+            if size_saved is not None:
+                for m_, v_ in size_saved:
+                    m_.MAX_BLOCK_SIZE = v_
+                ops.append("p maxBlockSize 200000")
+                impl.append("ok")
             ops.append("node digest")
             impl.append(rn.digest())
             res.case((si, k, data), nontrivial=True)
